@@ -167,7 +167,7 @@ def _rows(df) -> t.Any:
         return f"uncollectable: {type(e).__name__}"
 
 
-def snap_df(df) -> dict:
+def snap_df(df, rows: bool = True) -> dict:
     with warnings.catch_warnings():
         warnings.simplefilter("ignore")
         return {
@@ -177,7 +177,8 @@ def snap_df(df) -> dict:
             "display": dict(df.display_name_mapping),
             "hints": [h.sql() for h in df.pending_hints],
             "sql": df.sql(optimize=False),
-            "rows": _rows(df),
+            # dropDuplicates(subset) keeps an arbitrary representative: its rows are not a function of the object
+            "rows": _rows(df) if rows else "not compared (nondeterministic by definition)",
         }
 
 
@@ -315,8 +316,9 @@ def run_impl(sc: dict) -> dict:
         dfs = [X.make_df(s, sc["schema"], sc["rows"])]
         handles: t.List[t.Any] = []
         extras: t.List[t.Any] = []  # results of calls outside the Lean alphabet: watched, not numbered by the model
+        extras_det: t.List[bool] = []
         for ei, ev in enumerate(sc["events"]):
-            before = [snap_df(d) for d in dfs + extras]
+            before = [snap_df(d) for d in dfs] + [snap_df(d, det) for d, det in zip(extras, extras_det)]
             n_model = len(dfs)
             watched = dfs + extras
             hbefore = [snap_handle(h) for h in handles]
@@ -345,12 +347,13 @@ def run_impl(sc: dict) -> dict:
                     if isinstance(new, BaseDataFrame) and new is not dfs[ev["r"]]:
                         # keep it alive and watched, but the model does not number it
                         extras.append(new)
+                        extras_det.append(ev["which"] != "dropDuplicates")
             except Exception as e:  # a follow-up that raises must still leave everything else intact
                 err = f"{type(e).__name__}: {str(e)[:160]}"
                 info["engine"] = conn.n - n0
             info["err"] = err
             n_prev = len(before)
-            after = [snap_df(d) for d in watched]
+            after = [snap_df(d) for d in watched[:n_model]] + [snap_df(d, det) for d, det in zip(watched[n_model:], extras_det)]
             hafter = [snap_handle(h) for h in handles[: len(hbefore)]]
             OBS = ("columns", "sql", "rows")  # what a DataFrame *reports*; the other keys are internal state
             info["objs"] = [i for i in range(n_prev) if any(before[i][k] != after[i][k] for k in OBS)]
